@@ -202,6 +202,34 @@ def points_for(names):
     return {n: np.array([p.get(n, 0.0) for p in pts]) for n in allnames}, len(pts)
 
 
+def int_point_mismatch(fn, n):
+    """the same point spelled as an int64 array - regular points and points ON the singular set (zeros): the sanitised
+    result must not depend on the dtype of the point"""
+    for base in ([(2 * i) % 5 for i in range(n)], [1 + (i % 3) for i in range(n)], [(i + 1) % 3 for i in range(n)]):
+        with np.errstate(all="ignore"):
+            try:
+                ref = np.array(fn(np.array(base, dtype=np.float64)), dtype=float, copy=True)
+            except Exception:
+                continue
+            try:
+                raw = fn(np.array(base, dtype=np.int64))
+                got = np.asarray(raw, dtype=float)
+            except Exception:
+                continue        # integer arithmetic that NumPy itself rejects (int ** negative int): not judged
+            if got.shape != ref.shape:
+                return {"point": base, "dtype": "int64", "got": got.tolist(), "float64": ref.tolist()}
+            # regular entries: equal; sanitised entries: still a sanitised value (an integer zero has no sign, so the
+            # SIGN of an unbounded entry such as d/dx (-x)**-1 at 0 may legitimately differ from the float spelling)
+            # (an exact 0 in the float answer may itself be a sanitised NaN - sqrt(-0.0) - which the integer spelling,
+            # having no negative zero, legitimately turns into an unbounded entry: zeros are not compared either)
+            reg = np.isfinite(ref) & (np.abs(ref) < 1e15) & (ref != 0.0)
+            ok_reg = np.allclose(got[reg], ref[reg], rtol=1e-12, atol=1e-12) if reg.any() else True
+            ok_sing = bool(np.all(np.isfinite(got)))
+            if not (ok_reg and ok_sing):
+                return {"point": base, "dtype": "int64", "got": got.tolist(), "float64": ref.tolist()}
+    return None
+
+
 def callables(b, rows, vn, fails, rep):
     from optyx.core import autodiff, compiler
     from optyx.core.expressions import Expression, Constant
@@ -228,6 +256,11 @@ def callables(b, rows, vn, fails, rep):
         out["hessian"] = (hf.__name__, lambda x, f=InPlace(hf): np.asarray(f(x), dtype=float))
     except Exception as ex:
         fails.add("exception:compile_hessian:" + type(ex).__name__, msg=str(ex)[:200])
+    for lab_, fn_ in (("jacobian", locals().get("jf")), ("gradient", locals().get("gf")), ("hessian", locals().get("hf"))):
+        if fn_ is not None and lab_ in out:
+            tm = int_point_mismatch(fn_, len(V))
+            if tm is not None:
+                fails.add("point-dtype-leaks-into-sanitised-derivative:" + lab_, V=vn, **tm)
     if rep:
         rep.transitions += sum(size(r) for r in rows) + len(out)
         for k, (nm, _) in out.items():
